@@ -260,12 +260,16 @@ inductive State where
   | xor (a b : State)
   | inv (a : State)
 
+def ViewItem.isSlice : ViewItem → Bool
+  | .slice _ _ _ => true
+  | .int _ => false
+
 /-- Only `None`, `Ellipsis`, a slice, or a tuple of slices: the views under which the pixel-space
 shortcut of `RoiSubsetStateNd.to_mask` is valid (`C04b`). -/
 def isGridView : View → Bool
   | .none => true
   | .ellipsis => true
-  | .basic items => items.all fun it => match it with | .slice _ _ _ => true | .int _ => false
+  | .basic items => items.all ViewItem.isSlice
   | _ => false
 
 def gridItems : View → List ViewItem
@@ -390,6 +394,18 @@ def sliceMask (sh : List Nat) (sls : List ViewItem) (v : View) : Except ViewErr 
         if outs.any AxisOut.isMiss then .ok ⟨shape, List.replicate (prod shape) false⟩
         else .ok ⟨shape, outerAnd (outs.filterMap AxisOut.flags?)⟩
 
+/-- The pixel-space shortcut on a regular sub-grid `ks` (per-axis coordinate lists of
+`raw_comps = data[att, view]`): `subset` keeps an attribute axis whole and takes `slice(0, 1)` of
+every other axis; the region is tested on the reduced arrays; the result is broadcast back to the
+shape of the sub-grid when the shapes differ. -/
+def roiGrid (axes : List Nat) (roi : List Nat → Bool) (ks : List (List Nat)) : NArr Bool :=
+  let resShape := ks.map List.length
+  let sub := mapIdxFrom (fun i (k : List Nat) => if axes.contains i then k else k.take 1) 0 ks
+  let subShape := sub.map List.length
+  let small := (allIdx subShape).map fun pos => roi (axes.map fun ax => (coordsAt sub pos).getD ax 0)
+  if subShape != resShape then ⟨resShape, broadcastData small subShape resShape⟩
+  else ⟨resShape, small⟩
+
 /-- `RoiSubsetStateNd.to_mask(data, view)` for pixel attributes, as coded (with `C04b`). -/
 def roiPix (sh : List Nat) (axes : List Nat) (roi : List Nat → Bool) (v : View) :
     Except ViewErr (NArr Bool) :=
@@ -398,14 +414,7 @@ def roiPix (sh : List Nat) (axes : List Nat) (roi : List Nat → Bool) (v : View
     -- take index 0 on the axes that are no attribute, test, broadcast back
     match selsOf sh (gridItems v) with
     | .error e => .error e
-    | .ok sels =>
-      let ks := sels.map Sel.toList
-      let resShape := ks.map List.length
-      let sub := mapIdxFrom (fun i (k : List Nat) => if axes.contains i then k else k.take 1) 0 ks
-      let subShape := sub.map List.length
-      let small := (allIdx subShape).map fun pos => roi (axes.map fun ax => (coordsAt sub pos).getD ax 0)
-      if subShape != resShape then .ok ⟨resShape, broadcastData small subShape resShape⟩
-      else .ok ⟨resShape, small⟩
+    | .ok sels => .ok (roiGrid axes roi (sels.map Sel.toList))
   else
     -- general path: `roi.contains(*[data[att, view] for att in atts])`
     gather sh (fun idx => roi (axes.map fun ax => idx.getD ax 0)) v
